@@ -1,5 +1,6 @@
 import DispatchVerif.Core.Utf8P
-/-! C20 (UTF part): code-shaped model of `_dispatch_transform_from_utf16` (src/transform.c:403)
+/-! C20 (UTF part): code-shaped model of `_dispatch_transform_from_utf16` (src/transform.c), as repaired by the
+    `fix:` commit for F5, F6 and F13 (the `wide` field of the outcomes is kept and stays 0),
     over a list of regions: `skip`, odd-sized regions with a one-unit look-ahead, surrogate pairs
     whose second half is in the next region.  Outcomes: `ok out skip wide` (`wide` counts the
     8-byte loads from a 2-byte mapping, F6), `fail` (NULL), `oob` (a `src[i]` load past the end of
@@ -43,7 +44,7 @@ def inner (be : Bool) (flat : List Nat) (off size max : Nat) (src : List Nat) :
       if i + 1 = max ∧ size / 2 < max then
         match look be flat (off + 2 * i) with
         | none => none
-        | some ch => some (some ch, skip + 1, wide + 1)
+        | some ch => some (some ch, skip + 1, wide)
       else some (rd16 be src i, skip, wide)
     match first with
     | none => .fail wide
@@ -54,10 +55,10 @@ def inner (be : Bool) (flat : List Nat) (off size max : Nat) (src : List Nat) :
       else if 0xd800 ≤ ch ∧ ch ≤ 0xdbff then
         let i := i + 1
         let second : Option (Option Nat × Nat) :=
-          if max ≤ i then
+          if size / 2 ≤ i then
             match look be flat (off + 2 * i) with
             | none => none
-            | some c2 => some (some c2, skip + 2)
+            | some c2 => some (some c2, skip + (if 2 * i < size then 1 else 2))
           else some (rd16 be src i, skip)
         match second with
         | none => .fail wide
@@ -74,7 +75,7 @@ def region (be : Bool) (flat : List Nat) (off : Nat) (r : List Nat) (out : List 
   else
     let size := r.length - skip
     let max := size / 2 + size % 2
-    inner be flat off size max (r.drop skip) (max + 1) 0 out 0 wide
+    inner be flat (off + skip) size max (r.drop skip) (max + 1) 0 out 0 wide
 
 def regions (be : Bool) (flat : List Nat) : Nat → List (List Nat) → List Nat → Nat → Nat → Res
   | _, [], out, skip, wide => .ok out skip wide
@@ -90,19 +91,13 @@ def fromUtf16 (be : Bool) (rs : List (List Nat)) : Res := regions be rs.flatten 
 def withoutBom (out : List Nat) : List Nat :=
   if out.take 3 = [0xef, 0xbb, 0xbf] then out.drop 3 else out
 
-/-- F5: "abcd" (UTF-16LE) cut 1|4|3: the look-ahead offset ignores the applied skip -/
-theorem F5_wrong_text :
-    fromUtf16 false [[0x61], [0x00, 0x62, 0x00, 0x63], [0x00, 0x64, 0x00]] ≠
+/-- F5 (fixed): "abcd" (UTF-16LE) cut 1|4|3 gives the single-region result -/
+theorem F5_fixed :
+    fromUtf16 false [[0x61], [0x00, 0x62, 0x00, 0x63], [0x00, 0x64, 0x00]] =
     fromUtf16 false [[0x61, 0x00, 0x62, 0x00, 0x63, 0x00, 0x64, 0x00]] := by decide
 
-/-- F6: every odd-sized region does a wide load -/
-theorem F6_wide_load : fromUtf16 false [[0x61], [0x00]] = .ok [0x61] 0 1 := by decide
-
-/-- F13: a high surrogate followed by the odd last byte of the region: `src[i]` is loaded one
-    byte past the region -/
-theorem F13_over_read : fromUtf16 false [[0x3d, 0xd8, 0x00], [0xde]] = .oob 0 := by decide
-
-#print axioms F13_over_read
+/-- F13 (fixed): a high surrogate followed by the odd last byte of the region takes the look-ahead -/
+theorem F13_fixed : fromUtf16 false [[0x3d, 0xd8, 0x00], [0xde]] = fromUtf16 false [[0x3d, 0xd8, 0x00, 0xde]] := by decide
 
 /-! ### well-formed input in one region: the converter inverts `Utf8P.toUtf16` -/
 open Utf8P (enc enc16 scalar)
@@ -160,7 +155,7 @@ theorem inner_step_pair (flat : List Nat) (off size max : Nat) (src : List Nat) 
       inner false flat off size max src fuel (i + 2)
         (out ++ enc8 ((ch - 0xd800) * 1024 + c2 % 1024 + 0x10000)) skip wide := by
   have h1 : ¬ max ≤ i := by omega
-  have h1' : ¬ max ≤ i + 1 := by omega
+  have h1' : ¬ size / 2 ≤ i + 1 := by omega
   have h2 : ¬ (i + 1 = max ∧ size / 2 < max) := fun h => heven h.2
   have h3 : ¬ (ch = 0xfffe ∧ off = 0 ∧ i = 0) := fun h => h0 h.2.2
   have h4 : ¬ (ch = 0xfeff ∧ off = 0 ∧ i = 0) := fun h => h0 h.2.2
